@@ -19,7 +19,8 @@ TokLine(t) ==
       [] t = 12 -> <<SP, DOT, DOT>>                       \* " .."     not an empty line
       [] t = 13 -> <<SP, SP, DOT>>                        \* "  ."     an indented dot is text, not the empty-line marker
       [] t = 14 -> <<SP, TAB, DOT, SP>>                   \* " \t. "   likewise, with trailing space
-AllTokens == 1..14
+      [] t = 15 -> <<SP, HASH, 104>>                      \* " #h"     a continuation line whose text starts with '#' is text, not a comment
+AllTokens == 1..15
 
 Eol(crlf) == IF crlf THEN <<CR, LF>> ELSE <<LF>>
 Doc(toks, crlf, final) ==
